@@ -190,6 +190,13 @@ func buildIntrinsics() map[string]intrinsic {
 		p.panicIsViolation = true
 		return nil
 	}
+	m["verif:verifIdealChecksums"] = func(p *Path, fn *ssa.Function, a []Value, pos token.Pos, caller *ssa.Function) []Value {
+		if p.userData == nil {
+			p.userData = map[string]interface{}{}
+		}
+		p.userData["idealChecksums"] = true
+		return nil
+	}
 	m["verif:verifPanicIsIgnored"] = func(p *Path, fn *ssa.Function, a []Value, pos token.Pos, caller *ssa.Function) []Value {
 		p.panicIsViolation = false
 		return nil
@@ -288,7 +295,39 @@ func (p *Path) ufOverBytes(name string, resW int, extra []*Term, s seq) *Term {
 	if len(args) == 0 {
 		return p.ctx.Var(fmt.Sprintf("%s_0", name), BVSort(resW))
 	}
-	return p.ctx.UF(fmt.Sprintf("%s_%d", name, n), BVSort(resW), args...)
+	sym := fmt.Sprintf("%s_%d", name, n)
+	res := p.ctx.UF(sym, BVSort(resW), args...)
+	if p.userData["idealChecksums"] != nil && strings.HasPrefix(name, "crc32") {
+		p.idealChecksumAxioms(sym, args, res)
+	}
+	return res
+}
+
+type ufApp struct {
+	args []*Term
+	res  *Term
+}
+
+// idealChecksumAxioms (harness opt-in: verifIdealChecksums) makes the uninterpreted checksum collision-free on the
+// applications that occur on this path: for every earlier application g(y) of the same symbol, g(x) = g(y) => x = y.
+// Pairwise injectivity over finitely many applications is consistent, so it cannot make a path vacuous; it removes
+// exactly the counterexamples that need a checksum collision (which native replay with the real crc32 would not
+// reproduce). It is part of the claim and is listed among the stubs.
+func (p *Path) idealChecksumAxioms(sym string, args []*Term, res *Term) {
+	c := p.ctx
+	apps, _ := p.userData["ufApps:"+sym].([]ufApp)
+	for _, o := range apps {
+		if o.res == res {
+			continue
+		}
+		same := c.Bool(true)
+		for i := range args {
+			same = c.And(same, c.Eq(args[i], o.args[i]))
+		}
+		p.addPC(c.Implies(c.Eq(res, o.res), same))
+	}
+	p.userData["ufApps:"+sym] = append(apps[:len(apps):len(apps)], ufApp{args: args, res: res})
+	p.noteAssumption("crc32 is collision-free on the inputs compared on one path (ideal checksum, verifIdealChecksums)")
 }
 
 func addBytesIntrinsics(m map[string]intrinsic) {
